@@ -4,6 +4,7 @@ package gi
 
 import (
 	"github.com/ohler55/slip"
+	"github.com/ohler55/slip/pkg/cl"
 )
 
 func init() {
@@ -70,6 +71,10 @@ func (f *Recover) Call(s *slip.Scope, args slip.List, depth int) (result slip.Ob
 	}()
 	for i := 2; i < len(args); i++ {
 		result = slip.EvalArg(s, args, i, d2)
+		switch result.(type) {
+		case *slip.ReturnResult, *cl.GoTo:
+			return result
+		}
 	}
 	return
 }
